@@ -47,6 +47,12 @@ SET_METHODS = {'union', 'intersection', 'difference',
 FS_LISTERS = {'iterdir', 'listdir', 'glob', 'rglob', 'scandir', 'walk'}
 
 
+def timing(labels):
+    """what is collected (appended, +=) *when* depends on timing ends up
+    in an order that depends on timing"""
+    return frozenset(l for l in labels if l[0] == 'SCHED')
+
+
 def frozen(labels):
     """a *list* whose order came from a set: the order is frozen into the
     value (a set that is still a set can be sorted by whoever serialises
@@ -626,6 +632,8 @@ class _FnState(object):
         for g in e.generators:
             it = self.ev(g.iter, env2)
             ordl |= it.iter_ord
+            # a selection that depends on timing, mapped: still one
+            val |= timing(it.val)
             tv = self._iter_elem(g.iter, it)
             self._bind_target(g.target, tv, env2, g.iter)
             for c in g.ifs:
@@ -744,6 +752,12 @@ class _FnState(object):
             if nm == 'list':
                 return AV('seq', {('SCHED', loc)}, EMPTY)
             return AV('dict', EMPTY, EMPTY, {('SCHED', loc)})
+        if nm == 'winnow_process_dict' and isinstance(t, FunctionInfo):
+            # which workers are still alive is a matter of timing: what is
+            # selected by membership in the surviving table (and the order
+            # in which such selections are collected) varies from run to
+            # run
+            return AV('dict', EMPTY, {('SCHED', loc)}, EMPTY)
         if nm == 'Manager':
             return AV('unk', EMPTY, {('MGR', loc)})
         # order clearing
@@ -1071,6 +1085,12 @@ class _FnState(object):
                     ordl = old.ord | av.ord
                     val = old.val | av.val
                     if old.kind in ('seq', 'unk') and isinstance(
+                            s.op, ast.Add) and av.kind == 'seq':
+                        # (the collection as a whole ends up holding
+                        # everything: only its order is a matter of timing)
+                        ordl |= timing(av.val)
+                        val = old.val | (av.val - timing(av.val))
+                    if old.kind in ('seq', 'unk') and isinstance(
                             s.op, ast.Add) and self._order_sensitive_add(
                                 s, old, av):
                         ordl |= lo
@@ -1230,8 +1250,24 @@ class _FnState(object):
 
     @staticmethod
     def _integer_literal(v):
-        return isinstance(v, ast.Constant) and isinstance(
-            v.value, int) and not isinstance(v.value, bool)
+        """an integer by construction (a literal, an extent, a count, sums
+        and differences of these): adding such values up is exact and
+        commutative, whatever order they come in"""
+        if isinstance(v, ast.Constant):
+            return isinstance(v.value, int) and not isinstance(
+                v.value, bool)
+        if isinstance(v, ast.BinOp) and isinstance(
+                v.op, (ast.Add, ast.Sub, ast.Mult)):
+            return _FnState._integer_literal(v.left) \
+                and _FnState._integer_literal(v.right)
+        if isinstance(v, ast.Subscript) and isinstance(
+                v.value, ast.Attribute) and v.value.attr == 'shape' \
+                and isinstance(v.slice, ast.Constant):
+            return True
+        if isinstance(v, ast.Call) and isinstance(v.func, ast.Name) \
+                and v.func.id == 'len':
+            return True
+        return False
 
     def _order_sensitive_add(self, s, old, av):
         # list += list / str += str are order sensitive; numeric sums are
@@ -1502,8 +1538,8 @@ class _FnState(object):
                 return
             if f.attr == 'extend':
                 out[name] = AV('seq' if old.kind == 'unk' else old.kind,
-                               old.ord | lo | allv.ord,
-                               old.val | allv.val,
+                               old.ord | lo | allv.ord | timing(allv.val),
+                               old.val | (allv.val - timing(allv.val)),
                                old.kord | allv.kord)
                 return
             if f.attr == 'sort':
